@@ -6,9 +6,16 @@
 package main
 
 import (
+	"encoding/json"
 	"fmt"
+	"hash/adler32"
+	"hash/crc32"
+	"hash/fnv"
 	"os"
+	"os/exec"
+	"path/filepath"
 	"sort"
+	"sync"
 	"time"
 
 	"github.com/practable/relay/verifharness/cmd/c03/hubkit"
@@ -41,6 +48,7 @@ type Case struct {
 	Ops     []Op   `json:"ops"`
 	Seen    []Seen `json:"seen"`
 	Kind    string `json:"kind"`
+	Cap     int    `json:"cap,omitempty"` // lagfull: BufferSize of the (child) relay
 	Discard string `json:"discard,omitempty"`
 }
 
@@ -83,8 +91,8 @@ func (c Case) coq() string {
 			noCode[s.N] = true
 		}
 	}
-	if c.Discard != "" {
-		return "([], [])" // kept only so that case numbers stay aligned
+	if c.Discard != "" || c.Kind == "lagfull" {
+		return "([], [])" // judged by the oracle only (lagfull) or discarded; kept so that case numbers stay aligned
 	}
 	ops := []string{}
 	for _, o := range c.Ops {
@@ -196,6 +204,10 @@ func genHistory(r *lib.Rng) []Op {
 		if !dup {
 			chosen = append(chosen, topics[i])
 		}
+	}
+	if len(hashPairs) > 0 && r.Chance(1, 4) {
+		hp := hashPairs[r.Intn(len(hashPairs))]
+		chosen = append(chosen, hp.a, hp.b) // same cheap hash, different topics
 	}
 	var slots []*slot
 	for _, t := range chosen {
@@ -417,6 +429,8 @@ func runCase(k *hubkit.Kit, c *Case, res *lib.Result) []*hubkit.Peer {
 			}
 		case "sync":
 			waitAll()
+		case "pause":
+			time.Sleep(90 * time.Millisecond)
 		}
 	}
 	time.Sleep(20 * time.Millisecond) // anything delivered where the script did not expect it
@@ -466,36 +480,149 @@ func oracle(c Case, idx int, peers []*hubkit.Peer, res *lib.Result) {
 	}
 }
 
-func main() {
-	a := lib.ParseArgs()
-	res := lib.NewResult("C03", a.Seed, a.Tier)
-	rng := lib.NewRng(a.Seed)
-	k := hubkit.Start(lib.RelayOpts{BufferSize: bufferSize})
+// ---- topics whose cheap 32-bit hashes collide --------------------------------------------------
+// Pairs of plausible topic names that have the same value under a common cheap hash (FNV-1 and
+// FNV-1a 32, CRC-32 IEEE, Adler-32, Java's 31*h+c): a fan-out table keyed by such a hash instead of
+// the topic string would merge them. Found by a small search at start-up (a few hundred thousand
+// names), checked again before use; both members of a pair are put into the same history.
+type hashPair struct {
+	hash string
+	a, b string
+}
 
-	var cases []Case
-	if a.Replay != "" {
-		var c Case
-		lib.ReadReplayCase(a.Replay, &c)
-		cases = []Case{c}
-	} else {
-		n := a.Pick(200, 1500)
-		for i := 0; i < n; i++ {
-			cases = append(cases, Case{Ops: genHistory(rng.Fork()), Kind: "history"})
+var hashPairs []hashPair
+
+func findHashPairs() {
+	javaHash := func(b []byte) uint32 {
+		var h uint32
+		for _, c := range b {
+			h = 31*h + uint32(c)
 		}
-		for i, m := 0, a.Pick(40, 300); i < m; i++ {
-			cases = append(cases, Case{Ops: genLag(rng.Fork()), Kind: "lag"})
+		return h
+	}
+	hashes := []struct {
+		name string
+		f    func([]byte) uint32
+	}{
+		{"fnv32", func(b []byte) uint32 { h := fnv.New32(); h.Write(b); return h.Sum32() }},
+		{"fnv32a", func(b []byte) uint32 { h := fnv.New32a(); h.Write(b); return h.Sum32() }},
+		{"crc32", crc32.ChecksumIEEE},
+		{"adler32", adler32.Checksum},
+		{"java31", javaHash},
+	}
+	var names []string
+	// varied lengths and letters: CRC-32 is linear, names that differ only in a few digits never collide
+	for n := 0; n < 20000; n++ {
+		for _, pre := range []string{"expt", "lab", "rig", "pend"} {
+			for _, kind := range []string{"video", "data", "log", "cam", "ctl"} {
+				names = append(names, fmt.Sprintf("%s%d-st-%s", pre, n, kind))
+			}
 		}
 	}
-	coq := make([]string, len(cases))
+	x := uint64(88172645463325252)
+	for n := 0; n < 300000; n++ {
+		x ^= x << 13
+		x ^= x >> 7
+		x ^= x << 17
+		names = append(names, fmt.Sprintf("bk-%08x-%s", uint32(x>>16), []string{"video", "data", "log"}[n%3]))
+	}
+	for _, h := range hashes {
+		seen := make(map[uint32]string, len(names))
+		found := 0
+		for _, nm := range names {
+			v := h.f([]byte(nm))
+			if other, ok := seen[v]; ok && other != nm {
+				if h.f([]byte(other)) != h.f([]byte(nm)) || other == nm {
+					panic("hash pair self-check failed")
+				}
+				hashPairs = append(hashPairs, hashPair{h.name, other, nm})
+				if found++; found >= 3 {
+					break
+				}
+			} else {
+				seen[v] = nm
+			}
+		}
+		if found == 0 {
+			panic("no colliding topic pair found for " + h.name)
+		}
+	}
+}
+
+// ---- lag histories on relays with a tiny buffer (child processes: one relay per process) -------
+
+// genLagFull: like genLag, but on a relay with BufferSize 1 or 2 the lagging reader's queue DOES
+// fill while others keep sending (the relay then drops it - fine). What everybody else receives,
+// the senders included, is judged by the oracle only: which messages the dropped reader and the
+// others got depends on the hub's order, so these histories are not compared with the model.
+func genLagFull(r *lib.Rng) []Op {
+	tA, tB := "a", []string{"ab", "a/b", "b"}[r.Intn(3)]
+	rw := []string{"read", "write"}
+	var ops []Op
+	join := func(tt string, scopes []string, slow bool) uint64 {
+		nextName++
+		ops = append(ops, Op{K: "join", N: nextName, TT: tt, Path: "/session/" + tt, Scopes: scopes, Slow: slow})
+		return nextName
+	}
+	seq := 0
+	send := func(n uint64, tt string, fill int, nb bool) {
+		seq++
+		nextID++
+		ops = append(ops, Op{K: "send", N: n, TT: tt, MT: 1 + r.Intn(2), ID: nextID, Seq: seq, Fill: fill, NB: nb})
+	}
+	lag := join(tA, rw, true)
+	xs := []uint64{join(tA, rw, false), join(tA, rw, false)}
+	if r.Bool() {
+		xs = append(xs, join(tA, rw, false))
+	}
+	if r.Bool() {
+		join(tA, []string{"read"}, false)
+	}
+	ys := []uint64{join(tB, rw, false), join(tB, rw, false)}
+	send(xs[0], tA, 100, false)
+	send(ys[0], tB, 100, false)
+	ops = append(ops, Op{K: "stall", N: lag})
+	for k := r.Range(10, 13); k > 0; k-- {
+		send(xs[r.Intn(len(xs))], tA, 1<<20, false) // fills the socket, then the queue of the lagging reader
+		if r.Chance(1, 3) {
+			send(ys[r.Intn(len(ys))], tB, r.Range(40, 3000), true)
+		}
+	}
+	for k := r.Range(8, 20); k > 0; k-- {
+		if r.Chance(1, 4) {
+			send(ys[r.Intn(len(ys))], tB, r.Range(40, 3000), false)
+		} else {
+			send(xs[r.Intn(len(xs))], tA, r.Range(40, 3000), false)
+		}
+	}
+	ops = append(ops, Op{K: "pause"}) // anything the relay does about the full queue a little later
+	ops = append(ops, Op{K: "unstall", N: lag})
+	for _, x := range xs {
+		ops = append(ops, Op{K: "barrier", N: x})
+	}
+	ops = append(ops, Op{K: "sync"})
+	send(xs[0], tA, 50, false)
+	ops = append(ops, Op{K: "pause"})
+	return ops
+}
+
+type childIO struct {
+	Cap        int             `json:"cap"`
+	Cases      []Case          `json:"cases"`
+	Violations []lib.Violation `json:"violations"`
+	Dist       map[string]int  `json:"dist"`
+}
+
+// execCases runs the cases on the relay behind k, judges them and fills res.
+func execCases(k *hubkit.Kit, cases []Case, res *lib.Result, base int) {
 	for i := range cases {
 		peers := runCase(k, &cases[i], res)
-		oracle(cases[i], i, peers, res)
+		oracle(cases[i], base+i, peers, res)
 		for _, p := range peers {
 			k.Leave(p)
 		}
 		hubkit.KeepAlive(peers)
 		c := cases[i]
-		coq[i] = c.coq()
 		res.Count("kind:" + c.Kind)
 		if c.Discard != "" {
 			res.Count("discarded:" + c.Discard)
@@ -507,8 +634,151 @@ func main() {
 		for _, s := range c.Seen {
 			res.CountN("payloads-received", len(s.IDs))
 		}
-		res.Sample(c)
+	}
+}
+
+func childMain(in, out string) {
+	b, err := os.ReadFile(in)
+	if err != nil {
+		os.Exit(3)
+	}
+	var io childIO
+	if json.Unmarshal(b, &io) != nil {
+		os.Exit(3)
+	}
+	k := hubkit.Start(lib.RelayOpts{BufferSize: int64(io.Cap)})
+	k.Slack = time.Second
+	res := lib.NewResult("C03", 0, "child")
+	execCases(k, io.Cases, res, 0)
+	io.Violations, io.Dist = res.Violations, res.Distribution
+	rb, _ := json.Marshal(io)
+	os.WriteFile(out, rb, 0o644)
+}
+
+// runChild runs cases on a relay with the given buffer size in a child process under a watchdog.
+func runChild(dir string, cp int, cases []Case, budget time.Duration) (*childIO, string) {
+	in := filepath.Join(dir, fmt.Sprintf("lagfull_in_%d.json", cp))
+	out := filepath.Join(dir, fmt.Sprintf("lagfull_out_%d.json", cp))
+	b, _ := json.Marshal(childIO{Cap: cp, Cases: cases})
+	os.WriteFile(in, b, 0o644)
+	cmd := exec.Command(os.Args[0], "child", in, out)
+	cmd.Stdout, cmd.Stderr = os.Stderr, os.Stderr
+	if err := cmd.Start(); err != nil {
+		return nil, "cannot start child: " + err.Error()
+	}
+	done := make(chan error, 1)
+	go func() { done <- cmd.Wait() }()
+	problem := ""
+	select {
+	case err := <-done:
+		if err != nil {
+			problem = "child ended with " + err.Error()
+		}
+	case <-time.After(budget):
+		cmd.Process.Kill()
+		<-done
+		problem = fmt.Sprintf("relay with BufferSize %d did not get through its histories within %v", cp, budget)
+	}
+	rb, err := os.ReadFile(out)
+	if err != nil {
+		return nil, problem + " (no result)"
+	}
+	var io childIO
+	if json.Unmarshal(rb, &io) != nil {
+		return nil, problem + " (unreadable result)"
+	}
+	return &io, problem
+}
+
+func main() {
+	if len(os.Args) > 3 && os.Args[1] == "child" {
+		childMain(os.Args[2], os.Args[3])
+		return
+	}
+	a := lib.ParseArgs()
+	res := lib.NewResult("C03", a.Seed, a.Tier)
+	rng := lib.NewRng(a.Seed)
+	findHashPairs()
+	os.MkdirAll(a.Out, 0o755)
+
+	var cases []Case
+	full := map[int][]Case{}
+	if a.Replay != "" {
+		var c Case
+		lib.ReadReplayCase(a.Replay, &c)
+		if c.Kind == "lagfull" {
+			full[c.Cap] = []Case{c}
+		} else {
+			cases = []Case{c}
+		}
+	} else {
+		n := a.Pick(200, 1500)
+		for i := 0; i < n; i++ {
+			cases = append(cases, Case{Ops: genHistory(rng.Fork()), Kind: "history"})
+		}
+		for i, m := 0, a.Pick(40, 300); i < m; i++ {
+			cases = append(cases, Case{Ops: genLag(rng.Fork()), Kind: "lag"})
+		}
+		for _, cp := range []int{1, 2} {
+			for i, m := 0, a.Pick(12, 60); i < m; i++ {
+				full[cp] = append(full[cp], Case{Ops: genLagFull(rng.Fork()), Kind: "lagfull", Cap: cp})
+			}
+		}
+	}
+	// the tiny-buffer relays run in child processes while this process drives the main relay
+	type childRes struct {
+		cp      int
+		io      *childIO
+		problem string
+	}
+	var wg sync.WaitGroup
+	var mu sync.Mutex
+	var crs []childRes
+	for cp, cs := range full {
+		wg.Add(1)
+		go func(cp int, cs []Case) {
+			defer wg.Done()
+			io, problem := runChild(a.Out, cp, cs, time.Duration(a.Pick(120, 600))*time.Second)
+			mu.Lock()
+			crs = append(crs, childRes{cp, io, problem})
+			mu.Unlock()
+		}(cp, cs)
+	}
+	if len(cases) > 0 {
+		k := hubkit.Start(lib.RelayOpts{BufferSize: bufferSize})
+		execCases(k, cases, res, 0)
+	}
+	wg.Wait()
+	sort.Slice(crs, func(i, j int) bool { return crs[i].cp < crs[j].cp })
+	for _, cr := range crs {
+		if cr.problem != "" {
+			res.Violate(lib.Violation{Clause: "relay-stopped", Case: -1, Key: "relay-stopped", Detail: cr.problem, Replay: full[cr.cp][0]})
+		}
+		if cr.io == nil {
+			continue
+		}
+		base := len(cases)
+		cases = append(cases, cr.io.Cases...)
+		for _, v := range cr.io.Violations {
+			if v.Case >= 0 {
+				v.Case += base
+			}
+			res.Violate(v)
+		}
+		for kk, v := range cr.io.Dist {
+			res.CountN(kk, v)
+		}
+	}
+	coq := make([]string, len(cases))
+	for i, c := range cases {
+		coq[i] = c.coq()
+		if len(res.Samples) < 2 {
+			res.Sample(c)
+		}
 		res.Cases = append(res.Cases, c)
+	}
+	for _, hp := range hashPairs {
+		res.Count("colliding-topic-pairs-available:" + hp.hash)
 	}
 	res.Evaluations = len(cases)
 	res.ShardSize = 40
